@@ -380,6 +380,9 @@ package bitcoin_reader
 //@   requires txmOK(m) && tx != nil
 //@   let txid = txHash(tx)
 //@   let tm = bucketOf(m, txHash(tx))
+// The entry is marked received inside the critical section that found it unreceived, i.e. before the transaction is
+// forwarded: a second delivery that runs between the two steps of this call already finds it received.
+//@   lemma [C06.marked-before-forward] before (*TxManager).sendTx: has(tm.txs, txid) && tm.txs[txid] != nil && tm.txs[txid].Received != nil
 //@   ensures [C06.deliver-once] old(has(tm.txs, txid) && tm.txs[txid].Received != nil) ==> sent(m.txChannel) == old(sent(m.txChannel))
 //@   ensures [C06.forward-at-most-once] sent(m.txChannel) == old(sent(m.txChannel)) || (sent(m.txChannel) == old(sent(m.txChannel)) + 1 && chanlog(m.txChannel, old(sent(m.txChannel))) == tx)
 //@   ensures [C06.delivered-marked] has(tm.txs, txid) && tm.txs[txid] != nil && tm.txs[txid].Received != nil
@@ -589,10 +592,15 @@ package bitcoin_reader
 //@   modifies m.downloaders, allelems(*downloadThread), m.downloaderLock
 
 // cancelDownloaders cancels every listed downloader of the hash: only channels of listed downloaders are signalled.
-//@ trusted func (*BlockManager).cancelDownloaders
+//@ func (*BlockManager).cancelDownloaders
 //@   requires m != nil && dlOK(m.downloaders)
-//@   ensures forallv(c, chan error, !old(isDownloadChan(m.downloaders, c)) ==> sent(c) == old(sent(c)) && closed(c) == old(closed(c)))
-//@   modifies m.downloaderLock, allof(BlockDownloader.isCancelled), allof(BlockDownloader.stateLock), allof(BlockDownloader.Mutex), allchans(interface{}), allchans(error), allof(BitcoinNode.blockReader), allof(BitcoinNode.blockOnStop), allof(BitcoinNode.blockHandler), allof(BitcoinNode.Mutex), ghost("cancelFoundStarted")
+//@   ensures [C16.cancel-frame] forallv(c, chan error, !old(isDownloadChan(m.downloaders, c)) ==> sent(c) == old(sent(c)) && closed(c) == old(closed(c)))
+//@   modifies m.downloaderLock, allof(BlockDownloader.isCancelled), allof(BlockDownloader.stateLock), allof(BlockDownloader.Mutex), allchans(interface{}), allchans(error), allof(BitcoinNode.blockReader), allof(BitcoinNode.blockOnStop), allof(BitcoinNode.blockHandler), allof(BitcoinNode.Mutex), ghost("cancelFoundStarted"), allelems(*downloadThread)
+//@   loop 1
+//@     modifies allof(BlockDownloader.isCancelled), allof(BlockDownloader.stateLock), allof(BlockDownloader.Mutex), allchans(interface{}), allchans(error), allof(BitcoinNode.blockReader), allof(BitcoinNode.blockOnStop), allof(BitcoinNode.blockHandler), allof(BitcoinNode.Mutex), ghost("cancelFoundStarted")
+//@     invariant (-1 <= rangeindex && rangeindex < len(downloaders)) || (len(downloaders) == 0 && rangeindex == -1)
+//@     invariant len(downloaders) == old(len(m.downloaders)) && forall(k, 0, len(downloaders), downloaders[k] == old(m.downloaders[k]) && downloaders[k] != nil && downloaders[k].downloader == old(m.downloaders[k].downloader) && downloaders[k].downloader.Complete == old(m.downloaders[k].downloader.Complete) && bdOK(downloaders[k].downloader))
+//@     invariant forallv(c, chan error, !old(isDownloadChan(m.downloaders, c)) ==> sent(c) == old(sent(c)) && closed(c) == old(closed(c)))
 
 //@ func (*BlockManager).Downloaders
 //@   requires m != nil && threadsOK(m.downloaders) && forall(i, 0, len(m.downloaders), m.downloaders[i].downloader != nil)
